@@ -3,6 +3,7 @@
    driver interprets the lines). *)
 let modes : (string * (string -> string)) list = [
   "log", Mode_log.check_line;
+  "codec", Mode_codec.check_line;
 ]
 
 let () =
